@@ -48,6 +48,7 @@ FINDING_TEXTS = {
     "bputTPoss": (b'#include "axllib"\nimport from SingleInteger;g3:SingleInteger:=1;g3:=with\n', []),
     "ptrlistFreeDeeplyTo": (b'#include "axllib"\nR1==>Record();R2==>(f1:SI,f3:Boolean);import from()R1 R2;'
                             b'f12(p13:R0,p14:SI):SI=={([]);v17:R1:=([](())())}\n', []),
+    "tfSetMeaningArgs": (b'#include "axllib"\nSI==>SingleInteger;g24:List(SI):=([@SI]@List(SI))\n', []),
     "symeExtensionFirst": (b'#include "axllib"\nCatA:Category{{(if false then())}}PD0(T:CatA):CatB=={(())}\n', []),
     "empty-export-message": (b'#include "axllib"\ndefine Ex0: Category == Exception with;\n'
                              b'define Ex0 : Ex0 @ Category == add add ;\n', []),
@@ -379,7 +380,8 @@ def run(chk, tier):
 
     # ---------------- thorough: token-level certificates re-derived from the rebuilt bytes; class (a) under ASan
     if tier != "quick":
-        cert_muts = [i for i in mut_inputs if i.label.get("level") == "token" and i.cert][:4000]
+        cert_muts = [i for i in mut_inputs if i.label.get("level") == "token" and i.cert]
+        cert_muts = cert_muts[::max(1, len(cert_muts) // 300)]        # a full scan of a 1-2 KB text costs TLC about a second
         again = ci.rejudge(chk, d, cert_muts, shards=12)
         disagree = [i for k, i in enumerate(cert_muts) if not set(i.cert) <= set(again[k]["c"])]
         stats["token_certificates_rechecked"] = len(cert_muts)
